@@ -58,7 +58,12 @@ def OPS(light=False):
         ("get_linear_hydropathy(2)", lambda o: o.get_linear_hydropathy(2)),
         ("get_linear_complexity(WF,w=1)", lambda o: o.get_linear_complexity("WF", blobLen=1)),
     ]
-    if light:
+    if light == "tiny":     # only analyses that are linear in the length (for sequences of thousands of residues)
+        keep = {"get_sequence", "get_length", "len", "str", "get_FCR", "get_NCPR", "get_countPos", "get_countNeg", "get_countNeut",
+                "get_mean_hydropathy", "get_WW_hydropathy", "get_amino_acid_fractions", "get_molecular_weight", "get_phasePlotRegion",
+                "get_delta", "get_NCPR(pH=5)"}
+        ops = [o for o in ops if o[0] in keep]
+    elif light:
         keep = {"get_sequence", "get_length", "len", "str", "get_FCR", "get_NCPR", "get_mean_hydropathy", "get_kappa",
                 "get_SCD", "get_HTMLColorString", "get_molecular_weight", "get_linear_NCPR(1)"}
         ops = [o for o in ops if o[0] in keep]
@@ -67,10 +72,11 @@ def OPS(light=False):
 
 _FULL = OPS()
 _LIGHT = OPS(True)
+_TINY = OPS("tiny")
 
 
 def api_vector(o, light=False):
-    return tuple((name, _call(f, o)) for name, f in (_LIGHT if light else _FULL))
+    return tuple((name, _call(f, o)) for name, f in (_TINY if light == "tiny" else (_LIGHT if light else _FULL)))
 
 
 def diff(a, b):
